@@ -201,6 +201,20 @@ func (h *RealtimeHandler) HandleParticipantJoin(ctx context.Context, handleFrame
 	}
 
 	session.AddParticipant(participant)
+
+	// The session may have ended between the lookup and this point (its last
+	// participant left): a session that is no longer registered cannot be joined.
+	if registered, found := h.Sessions.GetByGlobalID(h.Sessions.GlobalSessionID(session.ID)); !found || registered != session {
+		session.RemoveParticipant(participant)
+		respond.Send(&hagallpb.ErrorResponse{
+			Type:      hagallpb.MsgType_MSG_TYPE_ERROR_RESPONSE,
+			Timestamp: timestamppb.Now(),
+			RequestId: req.RequestId,
+			Code:      hagallpb.ErrorCode_ERROR_CODE_NOT_FOUND,
+		})
+		return nil
+	}
+
 	h.stopFrameHandling = session.HandleFrame(handleFrame)
 
 	respond.Send(&hagallpb.ParticipantJoinResponse{
@@ -1035,8 +1049,8 @@ func (h *RealtimeHandler) leaveSession() {
 	if session.ParticipantCount() == 0 {
 		// Here we use a context.Background to ensure the session to be deleted
 		// on the session discovery service (eg HDS).
+		// Remove closes the session, unless somebody joined it in the meantime.
 		h.Sessions.Remove(context.Background(), session)
-		session.Close()
 	}
 
 	h.currentParticipant = nil
